@@ -682,3 +682,106 @@ func init() {
 		c.Check(n >= 1, fk+" :: corruption test in the replay loop found", w.pos(f.Pos()), ">= 1", fmt.Sprintf("%d", n))
 	})
 }
+
+// ------------------------------------------------------------------ C15.R11
+// F60: replay of the unfinished height starts at the end-height marker of the height before. Consensus may be
+// started at a height whose predecessor never went through this WAL (block sync, state sync) or whose marker
+// was not written before a crash (between SaveBlock and the marker in finalizeCommit; the handshake then
+// applies the block). Without the marker nothing that is written during the new height can be replayed: after
+// the next crash the node is back at step NewHeight without its lock and votes. Before consensus starts
+// working on the height (the receive routine is started), the start-up path makes sure the marker of
+// height-1 is in the WAL: it searches for it and, not finding it, writes it with a synced write.
+func init() {
+	register("C15", "R11", "K2+K1", "start-up makes sure the end-height marker of the previous height is in the WAL before the new height's first record", 4, func(c *Ctx) {
+		w := c.W
+		f := c.fn("consensus", "State.OnStart")
+		if f == nil {
+			return
+		}
+		fk := funcKey(f)
+		// the marker write reachable from OnStart (not the one of finalizeCommit)
+		var ensure *deepCall
+		for _, dc := range w.deepCallsTo(f, 2, "consensus#WAL.WriteSync") {
+			dc := dc
+			g := dc.call.Parent()
+			for _, fs := range w.fieldStoresInRaw(g, "consensus", "EndHeightMessage", "Height") {
+				_ = fs
+				ensure = &dc
+			}
+		}
+		if !c.Check(ensure != nil, fk+" :: a marker write is reachable from start-up", w.pos(f.Pos()), "WriteSync(EndHeightMessage{…}) in OnStart or a helper", "start-up never writes an end-height marker: after block sync, state sync or a crash before the marker the new height cannot be replayed") {
+			return
+		}
+		g := ensure.call.Parent()
+		var h string
+		for _, fs := range w.fieldStoresInRaw(g, "consensus", "EndHeightMessage", "Height") {
+			h = w.exprWith(fs.Store.Val, ensure.sub)
+		}
+		c.Check(regexp.MustCompile(`^\(\w+(?:\.RoundState)?\.Height - 1\)$`).MatchString(h), fk+" :: the marker written is that of the height before the one about to run", w.ipos(ensure.site), "cs.Height - 1", "writes the marker of "+h)
+		// it is written only when a search for that very height did not find it
+		ok, why := c.ge().guarded(g, ensure.call, guardRe("the marker was searched for and not found", `^false\(\w+\.wal\.SearchForEndHeight\(`+regexp.QuoteMeta(h)+`, .*\)#1\)$`), 0)
+		if !ok && g != f {
+			ok, why = c.ge().guarded(f, ensure.site, guardRe("the marker was searched for and not found", `^false\(\w+\.wal\.SearchForEndHeight\(`+regexp.QuoteMeta(h)+`, .*\)#1\)$`), 0)
+		}
+		c.Check(ok, fk+" :: the marker is written only when it is missing", w.ipos(ensure.site), "SearchForEndHeight(h) not found ⇒ write", "written without a search for it ("+why+"): a second marker of the same height makes the replay refuse the log")
+		// before consensus starts to work on the height
+		n := 0
+		for _, b := range f.Blocks {
+			for _, in := range b.Instrs {
+				gi, isGo := in.(*ssa.Go)
+				if !isGo || !w.isCall(gi, "consensus#State.receiveRoutine") {
+					continue
+				}
+				n++
+				okp, _ := mustPrecede(f, gi, func(x ssa.Instruction) bool { return x == ssa.Instruction(ensure.site) })
+				c.Check(okp, fk+" :: the marker is made sure of before the receive routine starts", w.ipos(gi), "ensure ≺ go receiveRoutine", "consensus can start writing records of the new height before the previous height's marker is in the log")
+			}
+		}
+		c.Check(n == 1, fk+" :: start of the receive routine found", w.pos(f.Pos()), "1", fmt.Sprintf("%d", n))
+	})
+	alias("C04", "R12", "C15", "R11", "a restarted validator keeps its lock only if the records of the unfinished height can be replayed")
+}
+
+// ------------------------------------------------------------------ C15.R12
+// F61: a record appended behind a partial record is unreadable (the partial record's length field swallows
+// it) and the repair after a failed replay drops everything behind the damage — including what the replay
+// itself just wrote. The log is therefore checked, and cut back to its last complete record, *before* it is
+// opened for appending, whether or not a replay is going to run: consensus opens its WAL file only behind
+// the success of a step that reaches repairWalFile for that same file.
+func init() {
+	register("C15", "R12", "K1", "the WAL file is opened for appending only after its tail was checked and, if torn, repaired", 2, func(c *Ctx) {
+		w := c.W
+		n := 0
+		for _, s := range w.allCallsTo("consensus#State.OpenWAL") {
+			if strings.HasSuffix(w.Fset.Position(s.Instr.Pos()).Filename, "_test.go") || relPkg(s.Fn) != "consensus" {
+				continue
+			}
+			n++
+			f := s.Fn
+			call := s.Instr.(ssa.CallInstruction)
+			path := w.expr(callArgs(call)[0])
+			g := Guard{Name: "a step that repairs a torn tail of that file succeeded", Key: "repairs:" + path, Match: func(w *World, ff *ssa.Function, a Atom) bool {
+				if a.Kind != "nil" {
+					return false
+				}
+				gc := atomCall(a)
+				if gc == nil {
+					return false
+				}
+				h := staticCallee(gc)
+				if h == nil || h.Blocks == nil || relPkg(h) != "consensus" {
+					return false
+				}
+				okArg := false
+				for _, arg := range gc.Common().Args {
+					if w.expr(arg) == path {
+						okArg = true
+					}
+				}
+				return okArg && len(w.deepCallsTo(h, 2, "consensus#repairWalFile")) > 0
+			}}
+			c.guards(f, call, funcKey(f)+" :: open the WAL file for appending", 0, g)
+		}
+		c.Check(n >= 1, "consensus :: WAL open sites found", "-", ">= 1", fmt.Sprintf("%d", n))
+	})
+}
